@@ -14,6 +14,15 @@ BASELINE_OFF = ('cd /repo && env -u ELECTRUMX_VERIF /venv/bin/python -m pytest -
 _IDX_NOTE = ('Trusted: the fake plyvel stand-in (bound to real LevelDB by the conformance run), '
              'the reference indexer; only the default schedule is used here (schedules: C06/C07).')
 CHECKS = {
+    'C05': ('fault_enumeration',
+            'crash-point enumeration over the effect log of recorded reorganisations x continuation chains',
+            'Natural (depth 1..3) and forced (n = 1..3) reorganisations are recorded; every prefix '
+            'of the effect log from the first backup_block through re-indexing to catch-up (incl. '
+            'between the history rollback commit and the UTXO rollback commit, and torn file writes) '
+            'is restarted with the daemon on the new branch / back on the old branch / unchanged; '
+            'after catch-up the index must equal the reference and a fresh real server.',
+            'Crash = process death; fork depth within the reorg limit and the height >= 2 x depth '
+            'carve-out; one known finding (F8) recorded in known_findings.json.', '3/C05'),
     'C04': ('fault_enumeration',
             'crash-point enumeration over the durable-effect log (every prefix, torn writes, '
             'crash during recovery), real code re-opened on every post-crash image',
